@@ -89,6 +89,14 @@ def make_world(rng, thread_safe=False):
     return w
 
 
+def partial_state(rng, st):
+    """sometimes leave fluents undefined (the library reads them as 0): purity and repeatability need no model"""
+    if rng.random() < 0.4 and st[1]:
+        fl = {k: v for k, v in st[1].items() if rng.random() < 0.5}
+        return st[0], fl
+    return st
+
+
 class History:
     """one seeded sequence of API calls with journal + replays"""
 
@@ -151,7 +159,7 @@ def run_history(ctx, rng, mon, n_calls):
     mon.register(dom, "Domain#parsed")
     dom_m = model.RefDomain.from_text(text)
     wm = model.World(dom_m, w.objects)
-    st0 = gen.random_state(rng, w)
+    st0 = partial_state(rng, gen.random_state(rng, w))
     try:
         prob = lib.parse_problem_text(sx.plain(w.problem_ast(st0)), dom)
     except BaseException:
@@ -163,7 +171,7 @@ def run_history(ctx, rng, mon, n_calls):
     ops = []
     other = []
     from pddl_plus_parser.exporters import DomainExporter, ProblemExporter, TrajectoryExporter
-    kinds = ["new_op", "new_op", "is_applicable", "apply", "apply", "apply_flag", "reapply", "reapply", "serialize", "copy",
+    kinds = ["new_op", "new_op", "is_applicable", "apply", "apply", "apply_flag", "reapply", "reapply", "serialize", "copy", "two_ops",
              "print", "effects", "export_domain", "export_problem", "trajectory", "parse_other", "new_state", "replay", "replay"]
     for step in range(n_calls):
         k = rng.choice(kinds)
@@ -176,6 +184,23 @@ def run_history(ctx, rng, mon, n_calls):
             op = lib.make_operator(dom, an, call, prob.objects)
             ops.append((op, an, call))
             h.call(f"ground({an} {' '.join(call)})", lambda op=op: op.ground(), journal=False)
+            continue
+        if k == "two_ops":
+            # two live operators of ONE action with different arguments: ground A, query A, ground B, query A again
+            an = rng.choice(list(dom.actions))
+            calls = model.type_correct_calls(wm, dom_m.actions[an])
+            if len(calls) >= 2:
+                ca, cb = (list(c) for c in rng.sample(calls, 2))
+                opa = lib.make_operator(dom, an, ca, prob.objects)
+                ops.append((opa, an, ca))
+                h.call(f"ground({an} {' '.join(ca)})", lambda o=opa: o.ground(), journal=False)
+                for s_ in rng.sample(states, min(len(states), 3)):
+                    h.call(f"is_applicable({an} {' '.join(ca)} @s{states.index(s_)})", lambda o=opa, s_=s_: o.is_applicable(s_))
+                opb = lib.make_operator(dom, an, cb, prob.objects)
+                ops.append((opb, an, cb))
+                h.call(f"ground({an} {' '.join(cb)})", lambda o=opb: o.ground(), journal=False)
+                h.call(f"is_applicable({an} {' '.join(cb)} @s0)", lambda o=opb: o.is_applicable(states[0]))
+                h.replay_some(6)
             continue
         op, an, call = rng.choice(ops)
         s = rng.choice(states)
@@ -241,7 +266,7 @@ def run_history(ctx, rng, mon, n_calls):
                                   {"first_difference": digest.first_difference(digest.d_domain(fresh), digest.d_domain(f2)),
                                    "history": h.log[-10:]})
         elif k == "new_state":
-            stn = gen.random_state(rng, w)
+            stn = partial_state(rng, gen.random_state(rng, w))
             try:
                 pr2 = lib.parse_problem_text(sx.plain(w.problem_ast(stn)), dom)
                 s2 = lib.init_state(pr2)
@@ -437,8 +462,20 @@ def run_repo_tests_under_monitor(ctx):
         e = dict(os.environ, PDDL_PLUS_PARSER_VERIF="1", VERIF_PYTEST_OUT=out,
                  PYTHONPATH=os.pathsep.join([rp, env.HERE]))
         try:
-            subprocess.run([sys.executable, "-m", "pytest", "-q", "-p", "no:cacheprovider", "-p", "vlib.pytest_plugin", "."],
-                           cwd=os.path.join(rp, "tests", d), env=e, timeout=900, stdout=subprocess.DEVNULL, stderr=subprocess.DEVNULL)
+            import re
+            mon_run = subprocess.run([sys.executable, "-m", "pytest", "-q", "-p", "no:cacheprovider", "-p", "vlib.pytest_plugin", "."],
+                                     cwd=os.path.join(rp, "tests", d), env=e, timeout=900, stdout=subprocess.PIPE, stderr=subprocess.STDOUT, text=True)
+            e0 = {k: v for k, v in e.items() if k != "PDDL_PLUS_PARSER_VERIF"}
+            plain_run = subprocess.run([sys.executable, "-m", "pytest", "-q", "-p", "no:cacheprovider", "."],
+                                       cwd=os.path.join(rp, "tests", d), env=e0, timeout=900, stdout=subprocess.PIPE, stderr=subprocess.STDOUT, text=True)
+            summ = lambda t: sorted(re.findall(r"(\d+) (passed|failed|error)", t.strip().splitlines()[-1] if t.strip() else ""))
+            ctx.notes.setdefault("repo_tests_outcomes", {})[d] = {"with_monitors": summ(mon_run.stdout), "without": summ(plain_run.stdout)}
+            if summ(mon_run.stdout) != summ(plain_run.stdout):
+                # the monitors must not change what the code under test does: a difference makes this workload worthless
+                ctx.count("monitor_perturbs_repo_tests")
+                ctx.violation("harness:monitors-change-the-outcome-of-the-repository-tests",
+                              {"test_dir": d, "with_monitors": mon_run.stdout[-400:], "without": plain_run.stdout[-400:]})
+                continue
             with open(out) as f:
                 r = json.load(f)
         except Exception as ex:
